@@ -2,6 +2,8 @@
 
 mod builder;
 pub mod iter;
+#[cfg(daachorse_verif)]
+mod verif;
 
 use core::mem;
 use core::num::NonZeroU32;
@@ -679,6 +681,8 @@ impl<V> DoubleArrayAhoCorasick<V> {
             if state_id == ROOT_STATE_IDX {
                 return ROOT_STATE_IDX;
             }
+            #[cfg(daachorse_verif)]
+            crate::verif::tick();
             state_id = self.states.get_unchecked(usize::from_u32(state_id)).fail();
         }
     }
@@ -697,6 +701,8 @@ impl<V> DoubleArrayAhoCorasick<V> {
             if state_id == ROOT_STATE_IDX {
                 return ROOT_STATE_IDX;
             }
+            #[cfg(daachorse_verif)]
+            crate::verif::tick();
             let fail_id = self.states.get_unchecked(usize::from_u32(state_id)).fail();
             if fail_id == DEAD_STATE_IDX {
                 return ROOT_STATE_IDX;
